@@ -11,8 +11,8 @@ NOTES = {
             'not expressible in the model: the Go memory model and real schedules. Data-race freedom and linearizability of outcomes are OBSERVED (go test -race stress of every method mix; N concurrent ADD 1 = N; one winner among racing conditional puts), not proved. BatchWriteItem/BatchGetItem are sequences of atomic single-item operations, not atomic as a whole'),
     'C02': ('an unlimited read of the base table is exactly the selection of the matching items in key order (reverse for backward), for every interpreter, in every TInv state',
             'proved for the base table; reads through secondary indexes rest on IInv (C03) plus the correspondence check; N/B sort keys are ordered as text (known finding C12-2)'),
-    'C04': ('resume position decided by order (not by the presence of the boundary item), page size <= Limit, for every interpreter and table state',
-            'PARTIAL: the full completeness theorem (concatenated pages = unpaginated read) is not proved yet; it is checked by the correspondence on the page stream (every boundary, deletes between pages)'),
+    'C04': ('base table: following LastEvaluatedKey with any Limit >= 1 ends within |keys|+1 pages and concatenates to exactly the unpaginated result; resuming after any start key (stored or deleted meanwhile) returns exactly the matching items ordered after it; resume position decided by order; page size <= Limit; for every interpreter and every key-consistent table state',
+            'PARTIAL for secondary indexes only: there the completeness statement is checked by the correspondence on the page stream (every boundary, equal index keys, deletes between pages); premises of the base-table theorem: TInv and KInv (proved for reachable states; KInv for histories whose updates keep the key attributes, cf. known finding C13-2), expressions evaluate without error'),
     'C06': ('precedence chain from the generated tables; missing-attribute, type-sensitivity, ordering, NULL-exists and connective laws for all values',
             'a DynamoDB reference semantics is not available offline: the laws are those the property text states; BETWEEN/IN on paths and size() on sets are known findings'),
     'C07': ('frame theorem: attributes no action targets keep their value (through the evaluator representation) for every update expression, item and bindings; removed means gone; SET stores a copy',
